@@ -3,7 +3,7 @@ import os
 import random
 
 from . import pool, tlc
-from .common import NCPU, Report, ToolError, build_harness, log, seed, workdir
+from .common import NCPU, Report, ToolError, build_harness, log, seed, workdir, replay_witness
 
 OPS2 = ["div", "and", "add", "mul"]
 OPS1 = ["inv", "tz", "neg", "zext", "sext", "intou8", "tryi16"]
@@ -77,7 +77,10 @@ def c14(tier):
     rng = random.Random(sd)
     bins = build_harness(("release",))
     hv = bins["release"]
+    rw = replay_witness()
     maxw = 6 if tier == "quick" else 8
+    if rw and "call" in rw:
+        maxw = 2
     res = tlc.run_tlc("MCCell", env={"MAXW": maxw}, workers=max(2, NCPU - 2), timeout=3600, allow_violation=True)
     rep.add_tlc(res)
     rep.coverage["design_check"] = {"widths": "1..%d" % maxw, "operand_pairs": res.distinct,
@@ -87,8 +90,8 @@ def c14(tier):
         raise ToolError("MCCell: the transcription in Cell.tla violates %s\n%s" % (res.violated, res.raw_tail))
     reqs = []
     CH = 2500
-    for w in (8, 16, 32, 64):
-        calls = calls_for(w, rng, tier)
+    for w in ((rw["w"],) if (rw and "call" in rw) else (8, 16, 32, 64)):
+        calls = [rw["call"]] if (rw and "call" in rw) else calls_for(w, rng, tier)
         for k in range(0, len(calls), CH):
             reqs.append({"op": "arith", "id": "w%d_%d" % (w, k // CH), "w": w, "calls": calls[k:k + CH]})
     answers = pool.simple_requests(hv, reqs, timeout=120.0)
